@@ -10,7 +10,8 @@ import hashlib
 
 REPO = os.environ.get("VERIF_REPO", "/repo")
 VERIF = os.path.dirname(os.path.dirname(os.path.abspath(__file__)))
-HARNESS = os.path.join(VERIF, "harness")
+# VERIF_HARNESS: alternative harness tree (used for reach probes without disturbing running checks)
+HARNESS = os.environ.get("VERIF_HARNESS", os.path.join(VERIF, "harness"))
 
 # file in the workspace  ->  (module name, harness root file)
 MOUNTS = {
